@@ -39,6 +39,7 @@ KINDS = {
     "fs2": (False, True),
 }
 SEARCH2 = ("p", "q")
+EXT2 = ".lq"
 
 
 def _mk_loaders(kind: str, cap: int, auto_reload: bool, ns_key: bool, root: Path):
@@ -106,8 +107,9 @@ def _mk_loaders(kind: str, cap: int, auto_reload: bool, ns_key: bool, root: Path
         for side in ("c", "u"):
             for sp in SEARCH2:
                 (root / side / sp).mkdir(parents=True)
-        cached = wrap(CachingFileSystemLoader, False)([root / "c" / sp for sp in SEARCH2], **ck)
-        twin = wrap(FileSystemLoader, False)([root / "u" / sp for sp in SEARCH2])
+        # names are given without a suffix: the default extension is applied by the loader
+        cached = wrap(CachingFileSystemLoader, False)([root / "c" / sp for sp in SEARCH2], ext=EXT2, **ck)
+        twin = wrap(FileSystemLoader, False)([root / "u" / sp for sp in SEARCH2], ext=EXT2)
         stores = [("fs", root / "c"), ("fs", root / "u")]
     elif kind == "choice":
         d1, d2 = {}, {}
@@ -168,7 +170,7 @@ def run_history(kind: str, cap: int, auto_reload: bool, ns_key: bool, ops: list[
                     if sk == "dict":
                         st[op[1]] = _src(op[2])
                     else:
-                        p = st / op[1]
+                        p = st / (op[1] + (EXT2 if kind == "fs2" else ""))
                         p.parent.mkdir(parents=True, exist_ok=True)
                         p.write_text(_src(op[2]))
                         # distinct mtimes that move backwards as often as forwards
@@ -182,7 +184,7 @@ def run_history(kind: str, cap: int, auto_reload: bool, ns_key: bool, ops: list[
                     if sk == "dict":
                         st.pop(op[1], None)
                     else:
-                        (st / op[1]).unlink(missing_ok=True)
+                        (st / (op[1] + (EXT2 if kind == "fs2" else ""))).unlink(missing_ok=True)
                 obs_c = obs_u = ("Q",)
             elif op[0] == "F":
                 cached.fail_next = True
